@@ -1,4 +1,6 @@
 import EpgVerif.Props.C14
+import EpgVerif.Props.C14Bound
+import EpgVerif.Props.C14Parseval
 import EpgVerif.Tie.ShiftSites
 open EpgVerif.Props.C14
 #print axioms q_rotation
@@ -11,3 +13,20 @@ open EpgVerif.Props.C14
 #print axioms normSq_eq_code_norm
 #print axioms energy_shiftF
 #print axioms EpgVerif.Tie.ShiftSites.sites_as_modelled
+#print axioms normSq_convex
+#print axioms E_energy_pointwise
+#print axioms E_keeps_bound
+#print axioms bounded_run
+#print axioms F0_le_norm
+#print axioms signal_le_PD
+#print axioms pointOp_energy
+#print axioms energy_affine_le
+#print axioms finv_step
+#print axioms nd_signal_le_PD
+#print axioms get_run
+#print axioms table_signal_le_PD
+#print axioms attScalar_le_one
+#print axioms diffusion_is_bounded_step
+#print axioms parseval_finset
+#print axioms norm_is_ensemble_rms
+#print axioms norm_is_bloch_ensemble_rms
